@@ -76,6 +76,8 @@ def verify_function(eng, key: str) -> FnReport:
     eng.index_loops(fn.node)
     n_before = len(eng.obligations)
     n_unv0 = len(eng.unverified_paths)
+    import os as _os, time as _time
+    eng.gen_deadline = _time.time() + float(_os.environ.get("PYVC_GEN_BUDGET", "240"))
     try:
         st = entry_state(eng, fn, c)
         penv = dict(st.env)
@@ -92,6 +94,7 @@ def verify_function(eng, key: str) -> FnReport:
         if r == "unsat":
             rep.status = "error"
             rep.reason = "contradictory precondition"
+            eng.gen_deadline = None
             return rep
         eng.frame_hook = lambda s_, st0=st: check_frame(eng, s_, st0, c, penv, fn)
         outs = eng.run_block(fn.node.body, st)
@@ -170,6 +173,7 @@ def verify_function(eng, key: str) -> FnReport:
         rep.reason = "fork outside statement"
         rep.tb = traceback.format_exc()
         del eng.obligations[n_before:]
+    eng.gen_deadline = None
     rep.n_obligations = len(eng.obligations) - n_before
     return rep
 
